@@ -29,13 +29,19 @@ impl EmmyLuaEmitter {
 
     /// Write a doc comment line: `--- text`.
     pub fn write_doc_comment(&mut self, text: &str) {
+        // The description may directly follow a typed annotation (the previous
+        // field), and types continue across comment lines: until some text
+        // has been written, a line must not start like a type continuation.
+        let mut after_type = true;
         for line in description_lines(text) {
+            let start = line.trim_start();
             // `--- @word` would be read as an annotation tag.
-            let escape = if line.trim_start().starts_with('@') {
+            let escape = if start.starts_with('@') || (after_type && continues_type(start)) {
                 "\\"
             } else {
                 ""
             };
+            after_type &= start.is_empty();
             let _ = writeln!(self.output, "--- {}{}", escape, line);
         }
     }
@@ -148,6 +154,18 @@ fn description_lines(text: &str) -> Vec<String> {
         .lines()
         .map(str::to_string)
         .collect()
+}
+
+/// Whether a comment line starting with `text` would be parsed as the
+/// continuation of a type on the previous line (`string` / `--- | nil`).
+fn continues_type(text: &str) -> bool {
+    if text.starts_with(['|', '&', '?', '[', '<', '+', '-']) {
+        return true;
+    }
+    let word_end = text
+        .find(|c: char| !c.is_alphanumeric() && c != '_')
+        .unwrap_or(text.len());
+    matches!(&text[..word_end], "in" | "extends")
 }
 
 /// Write `value` as a string literal type.
